@@ -47,7 +47,7 @@ def p2_events(ctx: Ctx) -> list[dict]:
         graphs += ctx.behaviours("MC_Graphs", "MC_Graphs_thorough.cfg", workers=2)
     ctx.notes["p2_exhaustive_graphs"] = len(graphs)
     ctx.notes["p2_exhaustive_upto2_blocks"] = n_small
-    sims = ctx.simulate("MC_Graphs", "MC_Graphs_sim.cfg", num=1500 if ctx.quick else 20000, depth=8)
+    sims = ctx.simulate("MC_Graphs", "MC_Graphs_sim.cfg", num=1000 if ctx.quick else 20000, depth=8)
     seen = set()
     nsim = 0
     for st in sims:
